@@ -646,3 +646,178 @@ pub fn indices_q_r9_across_the_byte_boundary() {
     vassert!(c8 == 8 && c3 == 3, "optional views, second byte");
     kani::cover!(true, "reached end");
 }
+
+// ------------------------------------------------------------------------------------------
+// Query-time `Entries`: `entries.entry(id).query(sub views, filter)` — the run-time-index filter
+// (query/view/contains/filter.rs), the maybe-uninit super views and the sub-view extraction
+// (query/view/subset.rs), for every legal pairing of sub- and super-view kinds instantiated below.
+// ------------------------------------------------------------------------------------------
+
+use crate::{
+    entity::allocator::Slot,
+    query::Entries,
+};
+
+fn no_bits<R: Registry>() -> Vec<bool> {
+    vec![false; R::LEN]
+}
+
+macro_rules! entries_step {
+    ($name:ident, $R:ty, t1 = [$($b1:expr),*] x $N1:expr,
+     super_views = ($($SV:ty),*), sub_views = ($($V:ty),*), filter = $F:ty, matches = $pred:expr,
+     bind = ($($bind:ident),*), checks = [$(($kind:ident $($arg:tt)*)),*]) => {
+        #[kani::proof]
+        #[kani::unwind(12)]
+        pub fn $name() {
+            const N1: usize = $N1;
+            let bits1 = [$($b1),*];
+            let (archetypes, ids1, _ids2) = any_table2_with::<$R, N1, 0>(&bits1, &no_bits::<$R>(), true);
+            let f = facts::<$R, N1, 0>(&archetypes);
+            let arch_ref = match archs(&archetypes)[0] {
+                // SAFETY: the archetype outlives the reference (it is owned by the world below).
+                Some(a) => unsafe { a.identifier() },
+                None => unreachable!(),
+            };
+            // one slot per row, concrete layout (identifier (r, 0) lives in slot r)
+            let mut slots = Vec::with_capacity(N1);
+            let mut r = 0;
+            while r < N1 {
+                slots.push(Slot {
+                    generation: 0,
+                    location: Some(Location::new(arch_ref, r)),
+                });
+                r += 1;
+            }
+            let allocator = Allocator {
+                slots,
+                free: alloc::collections::VecDeque::new(),
+            };
+            let mut w = World::<$R, resource::Null>::verif_from_raw_parts(archetypes, allocator, N1, resource::Null);
+            let row: usize = kani::any();
+            kani::assume(row < N1);
+            let pred: fn(&[bool]) -> bool = $pred;
+            // SAFETY: the world outlives the handle; nothing else touches it meanwhile.
+            let mut entries: Entries<'_, $R, resource::Null, crate::query::Views!($($SV),*), _> = unsafe { Entries::new(&mut w) };
+            let stale = entity::Identifier::new(row, 1);
+            vassert!(entries.entry(stale).is_none(), "a stale identifier has no entry");
+            match entries.entry(ids1[row]) {
+                Some(mut entry) => match entry.query(Query::<crate::query::Views!($($V),*), $F>::new()) {
+                    Some(item) => {
+                        vassert!(pred(&bits1), "entry query answers only when filter and sub views match the entity");
+                        let crate::query::result!($($bind),*) = item;
+                        $( vcheck!($kind $($arg)*, $R, &bits1, &f.cols1, row, ids1[row]); )*
+                    }
+                    None => vassert!(!pred(&bits1), "entry query refuses only when filter or sub views do not match"),
+                },
+                None => vassert!(false, "a live identifier has an entry"),
+            }
+            kani::cover!(true, "reached end");
+            core::mem::forget(w);
+        }
+    };
+}
+
+// sub view kinds against super view kinds: & of &, & of &mut, Option<&> of &mut, &mut of &mut,
+// Option<&mut> of Option<&mut>, with an Option<&mut> super view in front of a later component
+entries_step!(entries_q_dbwa_sub_of_mut_and_opt, RDBWA, t1 = [true, true, false, true] x 2,
+    super_views = (Option<&mut D>, &mut B, Option<&mut W>, &mut A), sub_views = (&A, Option<&D>, &mut B), filter = filter::None, matches = |b| b[3] && b[1],
+    bind = (a, od, bb), checks = [(req 3 a), (opt 0 od), (req 1 bb)]);
+entries_step!(entries_t_dbwa_absent_required, RDBWA, t1 = [true, true, false, true] x 2,
+    super_views = (Option<&mut D>, &mut B, Option<&mut W>, &mut A), sub_views = (&W, &A), filter = filter::None, matches = |b| b[2] && b[3],
+    bind = (w, a), checks = [(req 2 w), (req 3 a)]);
+entries_step!(entries_t_dbwa_filter_not, RDBWA, t1 = [true, false, true, true] x 2,
+    super_views = (&D, entity::Identifier, Option<&B>, &mut W, Option<&mut A>), sub_views = (Option<&mut A>, &W, entity::Identifier), filter = Not<Has<B>>, matches = |b| b[2] && !b[1],
+    bind = (oa, w, id), checks = [(opt 3 oa), (req 2 w), (id id)]);
+
+// ------------------------------------------------------------------------------------------
+// World-level operations on a world assembled with a *fully concrete* slot table (identifier (r,0)
+// lives in slot r): World::remove / clear / Entry::add / Entry::remove executed for real, with
+// symbolic component values and the reference-map observer afterwards.
+// ------------------------------------------------------------------------------------------
+
+fn concrete_world<R, const N1: usize>(bits1: &[bool]) -> (World<R, resource::Null>, [entity::Identifier; N1])
+where
+    R: Registry + Cols,
+{
+    let (archetypes, ids1, _ids2) = any_table2_with::<R, N1, 0>(bits1, &no_bits::<R>(), true);
+    let arch_ref = match archs(&archetypes)[0] {
+        // SAFETY: the archetype outlives the reference (it is owned by the world below).
+        Some(a) => unsafe { a.identifier() },
+        None => unreachable!(),
+    };
+    let mut slots = Vec::with_capacity(N1);
+    let mut r = 0;
+    while r < N1 {
+        slots.push(Slot {
+            generation: 0,
+            location: Some(Location::new(arch_ref, r)),
+        });
+        r += 1;
+    }
+    let allocator = Allocator {
+        slots,
+        free: alloc::collections::VecDeque::new(),
+    };
+    (World::<R, resource::Null>::verif_from_raw_parts(archetypes, allocator, N1, resource::Null), ids1)
+}
+
+#[kani::proof]
+#[kani::unwind(12)]
+pub fn worldop_q_remove_first_of_two() {
+    let (mut w, ids) = concrete_world::<RAB, 2>(&[true, true]);
+    let keep_before = observe(&w, ids[1]);
+    w.remove(ids[0]);
+    vassert!(w.len() == 1 && !w.is_empty(), "len counts exactly the stored entities");
+    vassert!(!w.contains(ids[0]) && w.contains(ids[1]), "exactly the removed identifier stops resolving");
+    vassert!(keep_before.is_some(), "bystander observed before");
+    let keep_after = observe(&w, ids[1]);
+    match (keep_before, keep_after) {
+        (Some(x), Some(y)) => vassert!(x.vals[0] == y.vals[0] && x.vals[1] == y.vals[1], "the bystander keeps its own values although its row moved"),
+        _ => vassert!(false, "the bystander still resolves"),
+    }
+    w.remove(ids[0]);
+    vassert!(w.len() == 1, "removing a stale identifier is a no-op");
+    kani::cover!(true, "reached end");
+    core::mem::forget(w);
+}
+
+fn vals_eq(a: &Option<EntityView>, b: &Option<EntityView>, n: usize) -> bool {
+    match (a, b) {
+        (Some(x), Some(y)) => {
+            let mut eq = true;
+            let mut k = 0;
+            while k < MAXC {
+                if k < n && x.vals[k] != y.vals[k] {
+                    eq = false;
+                }
+                k += 1;
+            }
+            eq
+        }
+        _ => false,
+    }
+}
+
+// Measured: only `remove` of the first of two rows and `clear` fit.  `remove` in a three-row table,
+// `Entry::add` / `Entry::remove` (1.0 M steps) and `extend` into an existing table run out of memory even as
+// the single operation of a harness, and any second operation does (add + overwrite + remove: 2.5 M steps,
+// > 1 h).  Those operations are covered at archetype level (`rm_`, `shape_`, `ext_`) and through E3c.
+
+#[kani::proof]
+#[kani::unwind(12)]
+pub fn worldop_q_clear() {
+    let (mut w, ids) = concrete_world::<RAB, 2>(&[true, true]);
+    w.clear();
+    vassert!(w.len() == 0 && w.is_empty(), "a cleared world is empty");
+    vassert!(!w.contains(ids[0]) && !w.contains(ids[1]), "no identifier survives clear");
+    vassert!(w.entity_allocator.free.len() == 2, "every cleared identifier's slot is released");
+    kani::cover!(true, "reached end");
+    core::mem::forget(w);
+}
+
+entries_step!(entries_q_dbwa_has_filter_on_absent_optmut, RDBWA, t1 = [true, true, false, true] x 2,
+    super_views = (Option<&mut D>, &mut B, Option<&mut W>, &mut A), sub_views = (&B), filter = Has<W>, matches = |b| b[1] && b[2],
+    bind = (bb), checks = [(req 1 bb)]);
+entries_step!(entries_t_dbwa_not_has_filter_on_absent_optmut, RDBWA, t1 = [true, true, false, true] x 2,
+    super_views = (Option<&mut D>, &mut B, Option<&mut W>, &mut A), sub_views = (&B), filter = Not<Has<W>>, matches = |b| b[1] && !b[2],
+    bind = (bb), checks = [(req 1 bb)]);
